@@ -27,7 +27,7 @@ theorem DirRel.congr {oS oR oS' oR' : Obj} {fwd bwd fwd' bwd' : List Msg} {w r w
 @[simp] theorem toItem_push (y : Nat) (d : Bytes) : toItem (.frame (.push y d)) = some (.push d) := rfl
 @[simp] theorem toItem_finish (y : Nat) : toItem (.frame (.finish y)) = some .fin := rfl
 @[simp] theorem toItem_ack (y n : Nat) : toItem (.frame (.acknowledge y n)) = none := rfl
-@[simp] theorem toItem_reset (y : Nat) : toItem (.frame (.reset y)) = none := rfl
+@[simp] theorem toItem_reset (y : Nat) : toItem (.frame (.reset y)) = some .rst := rfl
 @[simp] theorem ackOf_push (y : Nat) (d : Bytes) : ackOf (.frame (.push y d)) = none := rfl
 @[simp] theorem ackOf_finish (y : Nat) : ackOf (.frame (.finish y)) = none := rfl
 @[simp] theorem ackOf_ack (y n : Nat) : ackOf (.frame (.acknowledge y n)) = some n := rfl
@@ -179,5 +179,264 @@ theorem DirRel.deliverFinish {oS oR : Obj} {fwd bwd : List Msg} {w r : Bytes} {e
   rw [hs] at hinv ⊢
   exact ⟨hinv, h.hW, h.hWb, h.hth, h.hcredit, h.hfin, rfl, rfl, h.hrxq, h.hbuf, h.hsince,
     h.hacks, h.hacc, h.hdel, h.heof, fun _ => rfl⟩
+
+/-! ### No data after an end marker -/
+
+theorem npae_pushes_nil (l : List Link.Item) (h : Link.pushes l = []) : noPushAfterEnd l = true := by
+  induction l with
+  | nil => rfl
+  | cons x rest ih =>
+    cases x with
+    | push d => simp [Link.pushes] at h
+    | fin => simpa [noPushAfterEnd, Link.pushes] using h
+    | rst => simpa [noPushAfterEnd, Link.pushes] using h
+
+theorem npae_append (a b : List Link.Item) (ha : noPushAfterEnd a = true) (hb : noPushAfterEnd b = true)
+    (hab : Link.hasEnd a = true → Link.pushes b = []) : noPushAfterEnd (a ++ b) = true := by
+  induction a with
+  | nil => exact hb
+  | cons x rest ih =>
+    cases x with
+    | push d =>
+      simp only [List.cons_append, noPushAfterEnd] at ha ⊢
+      exact ih ha (fun h => hab (by simpa using h))
+    | fin =>
+      simp only [List.cons_append, noPushAfterEnd, List.isEmpty_iff] at ha ⊢
+      rw [Link.pushes_append, ha, hab (by simp)]; rfl
+    | rst =>
+      simp only [List.cons_append, noPushAfterEnd, List.isEmpty_iff] at ha ⊢
+      rw [Link.pushes_append, ha, hab (by simp)]; rfl
+
+theorem npae_end_prefix (a b : List Link.Item) (h : noPushAfterEnd (a ++ b) = true) (ha : Link.hasEnd a = true) :
+    Link.pushes b = [] := by
+  induction a with
+  | nil => simp at ha
+  | cons x rest ih =>
+    cases x with
+    | push d =>
+      simp only [List.cons_append, noPushAfterEnd] at h
+      exact ih h (by simpa using ha)
+    | fin =>
+      simp only [List.cons_append, noPushAfterEnd, List.isEmpty_iff, Link.pushes_append, List.append_eq_nil_iff] at h
+      exact h.2
+    | rst =>
+      simp only [List.cons_append, noPushAfterEnd, List.isEmpty_iff, Link.pushes_append, List.append_eq_nil_iff] at h
+      exact h.2
+
+theorem npae_suffix (a b : List Link.Item) (h : noPushAfterEnd (a ++ b) = true) : noPushAfterEnd b = true := by
+  induction a with
+  | nil => exact h
+  | cons x rest ih =>
+    cases x with
+    | push d => simp only [List.cons_append, noPushAfterEnd] at h; exact ih h
+    | fin =>
+      simp only [List.cons_append, noPushAfterEnd, List.isEmpty_iff, Link.pushes_append, List.append_eq_nil_iff] at h
+      exact npae_pushes_nil _ h.2
+    | rst =>
+      simp only [List.cons_append, noPushAfterEnd, List.isEmpty_iff, Link.pushes_append, List.append_eq_nil_iff] at h
+      exact npae_pushes_nil _ h.2
+
+/-! ### After the sender has released the flow -/
+
+theorem cutEnd_of_shapeOk (l : List Link.Item) (h : Link.shapeOk l = true) : cutEnd l = l := by
+  induction l with
+  | nil => rfl
+  | cons x rest ih =>
+    cases x with
+    | push d => simp only [cutEnd]; rw [ih (Link.shapeOk_tail d rest h)]
+    | fin => rw [Link.shapeOk_end_head .fin rest rfl h]; rfl
+    | rst => rw [Link.shapeOk_end_head .rst rest rfl h]; rfl
+
+theorem hasEnd_cutEnd (l : List Link.Item) : Link.hasEnd (cutEnd l) = Link.hasEnd l := by
+  induction l with
+  | nil => rfl
+  | cons x rest ih => cases x <;> simp [cutEnd, ih]
+
+theorem cutEnd_append_of_hasEnd (l m : List Link.Item) (h : Link.hasEnd l = true) : cutEnd (l ++ m) = cutEnd l := by
+  induction l with
+  | nil => simp at h
+  | cons x rest ih =>
+    cases x with
+    | push d => simp only [List.cons_append, cutEnd]; rw [ih (by simpa using h)]
+    | fin => rfl
+    | rst => rfl
+
+theorem cutEnd_append_end (l : List Link.Item) (x : Link.Item) (hx : x.isPush = false) (h : Link.hasEnd l = false) :
+    cutEnd (l ++ [x]) = l ++ [x] := by
+  induction l with
+  | nil => cases x <;> simp_all [cutEnd, Link.Item.isPush]
+  | cons y rest ih =>
+    cases y with
+    | push d => simp only [List.cons_append, cutEnd]; rw [ih (by simpa using h)]
+    | fin => simp at h
+    | rst => simp at h
+
+/-- The sender drops its handle without having shut down: `Link.step .abort` (a `Reset` is queued). -/
+theorem DirRel.release_reset {oS oR : Obj} {fwd bwd : List Msg} {w r : Bytes} {eof : Bool} {l : Link.St} (y : Nat)
+    (h : DirRel oS oR fwd bwd w r eof l) (hf : oS.finishSent = false) :
+    DirRelA oR (fwd ++ [.frame (.reset y)]) w r eof (Link.step l .abort).1 := by
+  have hinv := Link.step_inv l .abort h.inv
+  have hs : (Link.step l .abort).1 = { l with sFin := true, wire := l.wire ++ [.rst] } := by
+    simp [Link.step, h.hfin, hf]
+  rw [hs] at hinv ⊢
+  have hopen := h.inv.hopen (by rw [h.hfin]; exact hf)
+  have hal : oR.senderAlive = true := by rw [← h.halive]; exact hopen.2
+  refine ⟨hinv, h.hW, h.hWb, h.hth, rfl, ?_, h.halive, h.hrxq, h.hbuf, h.hsince, h.hacc, h.hdel, h.heof, h.hrx⟩
+  simp only [hal, if_true, List.filterMap_append, List.filterMap_cons, toItem_reset, List.filterMap_nil]
+  rw [← h.hwire, cutEnd_append_end _ _ rfl hopen.1]
+
+/-- The sender releases the flow after having shut down: the link state is unchanged. -/
+theorem DirRel.release_quiet {oS oR : Obj} {fwd bwd : List Msg} {w r : Bytes} {eof : Bool} {l : Link.St}
+    (h : DirRel oS oR fwd bwd w r eof l) (hf : oS.finishSent = true) :
+    DirRelA oR fwd w r eof l := by
+  refine ⟨h.inv, h.hW, h.hWb, h.hth, by rw [h.hfin]; exact hf, ?_, h.halive, h.hrxq, h.hbuf, h.hsince, h.hacc, h.hdel, h.heof, h.hrx⟩
+  cases hal : oR.senderAlive with
+  | true => simp only [if_true]; rw [← h.hwire, cutEnd_of_shapeOk _ h.inv.hshape]
+  | false => simp only [Bool.false_eq_true, if_false]; exact h.inv.hdeadwire (by rw [h.halive]; exact hal)
+
+/-- The sender releases the flow because the receiver's `Reset` arrived (no `Reset` goes back): the
+    receiver had ended its side already, so nothing is in flight any more. -/
+theorem DirRel.release_inhibit {oS oR : Obj} {fwd bwd : List Msg} {w r : Bytes} {eof : Bool} {l : Link.St}
+    (h : DirRel oS oR fwd bwd w r eof l) (hal : oR.senderAlive = false) :
+    ∃ l', DirRelA oR fwd w r eof l' := by
+  by_cases hf : oS.finishSent = true
+  · exact ⟨l, h.release_quiet hf⟩
+  · have hf' : oS.finishSent = false := by simpa using hf
+    -- the sender was still open, but the receiver is not alive: contradiction with the invariant
+    have := (h.inv.hopen (by rw [h.hfin]; exact hf')).2
+    rw [h.halive, hal] at this; cases this
+
+/-- `DirRelA` only looks at the receiver and, while it is alive, at the data items up to the first end marker. -/
+theorem DirRelA.congr {oR oR' : Obj} {fwd fwd' : List Msg} {w r w' r' : Bytes} {eof eof' : Bool} {l : Link.St}
+    (h : DirRelA oR fwd w r eof l)
+    (h3 : oR'.cap = oR.cap) (h4 : oR'.threshold = oR.threshold) (h5 : oR'.senderAlive = oR.senderAlive)
+    (h6 : oR'.rxq = oR.rxq) (h7 : oR'.buf = oR.buf) (h8 : oR'.recvdSince = oR.recvdSince)
+    (h9 : oR.senderAlive = true → cutEnd (fwd'.filterMap toItem) = cutEnd (fwd.filterMap toItem))
+    (h11 : w' = w) (h12 : r' = r) (h13 : eof' = eof) (h14 : oR'.rxOpen = oR.rxOpen) :
+    DirRelA oR' fwd' w' r' eof' l := by
+  refine ⟨h.inv, by rw [h3]; exact h.hW, by rw [h3]; exact h.hWb, by rw [h4]; exact h.hth, h.hfin, ?_,
+    by rw [h5]; exact h.halive, by rw [h6]; exact h.hrxq, by rw [h7]; exact h.hbuf, by rw [h8]; exact h.hsince,
+    by rw [h11]; exact h.hacc, by rw [h12]; exact h.hdel, by rw [h13]; exact h.heof, by rw [h14, h5]; exact h.hrx⟩
+  rw [h5, h.hwire]
+  cases hal : oR.senderAlive with
+  | true => simp only [if_true]; exact (h9 hal).symm
+  | false => rfl
+
+/-- Noise after the end marker (the `Reset` replies of the endpoint that released the flow, its
+    `Acknowledge` frames) does not show. -/
+theorem DirRelA.noise {oR : Obj} {fwd em : List Msg} {w r : Bytes} {eof : Bool} {l : Link.St}
+    (h : DirRelA oR fwd w r eof l) : DirRelA oR (fwd ++ em) w r eof l := by
+  refine h.congr rfl rfl rfl rfl rfl rfl ?_ rfl rfl rfl rfl
+  intro hal
+  have hw := h.hwire
+  rw [hal] at hw; simp only [if_true] at hw
+  have hend : Link.hasEnd (fwd.filterMap toItem) = true := by
+    rcases h.inv.hfin h.hfin with h1 | h1
+    · rw [hw, hasEnd_cutEnd] at h1; exact h1
+    · rw [h.halive, hal] at h1; cases h1
+  rw [List.filterMap_append, cutEnd_append_of_hasEnd _ _ hend]
+
+/-- The full relation seen from the frozen-sender relation: the receiver-side steps are the same. -/
+theorem DirRelA.read {oR oR' : Obj} {fwd : List Msg} {w r r' : Bytes} {eof eof' : Bool} {l l' : Link.St}
+    (h : DirRelA oR fwd w r eof l) (hinv : Link.Inv l')
+    (hf : l'.sFin = l.sFin) (hwr : l'.wire = l.wire) (hal : l'.rAlive = l.rAlive) (hW : l'.W = l.W) (hth : l'.th = l.th)
+    (hacc : l'.accepted = l.accepted)
+    (o1 : oR'.cap = oR.cap) (o2 : oR'.threshold = oR.threshold) (o3 : oR'.senderAlive = oR.senderAlive)
+    (hrxq : l'.rxq = oR'.rxq) (hbuf : l'.buf = oR'.buf) (hsince : l'.since = oR'.recvdSince)
+    (hdel : l'.delivered = r') (heof : l'.eofSeen = eof') (hrx : oR'.rxOpen = false → oR'.senderAlive = false) :
+    DirRelA oR' fwd w r' eof' l' :=
+  ⟨hinv, by rw [hW, o1]; exact h.hW, by rw [o1]; exact h.hWb, by rw [hth, o2]; exact h.hth, by rw [hf]; exact h.hfin,
+   by rw [hwr, o3]; exact h.hwire, by rw [hal, o3]; exact h.halive, hrxq, hbuf, hsince, by rw [hacc]; exact h.hacc, hdel, heof, hrx⟩
+
+theorem DirRelA.readBuf {oR : Obj} {fwd : List Msg} {w r : Bytes} {eof : Bool} {l : Link.St} (n : Nat)
+    (h : DirRelA oR fwd w r eof l) (hb : oR.buf ≠ []) :
+    DirRelA { oR with buf := oR.buf.drop n } fwd w (r ++ oR.buf.take n) eof (Link.step l (.read n)).1 := by
+  have hinv := Link.step_inv l (.read n) h.inv
+  have hbe : l.buf.isEmpty = false := by rw [h.hbuf]; cases hbb : oR.buf <;> simp_all
+  have hs : (Link.step l (.read n)).1 = { l with buf := l.buf.drop n, delivered := l.delivered ++ l.buf.take n } := by
+    simp [Link.step, Link.fill_one _ _ h.inv.hne_rxq, hbe]
+  rw [hs] at hinv ⊢
+  exact h.read hinv rfl rfl rfl rfl rfl rfl rfl rfl rfl h.hrxq (by simp [h.hbuf]) h.hsince (by simp [h.hdel, h.hbuf]) h.heof h.hrx
+
+theorem DirRelA.readFrame {oR : Obj} {fwd : List Msg} {w r : Bytes} {eof : Bool} {l : Link.St} (n : Nat)
+    (f : Bytes) (rest : List Bytes) (h : DirRelA oR fwd w r eof l) (hb : oR.buf = []) (hq : oR.rxq = f :: rest) :
+    (oR.recvdSince + 1 ≥ oR.threshold →
+      DirRelA { oR with rxq := rest, buf := f.drop n, recvdSince := 0 } fwd w (r ++ f.take n) eof (Link.step l (.read n)).1) ∧
+    (¬ oR.recvdSince + 1 ≥ oR.threshold →
+      DirRelA { oR with rxq := rest, buf := f.drop n, recvdSince := oR.recvdSince + 1 } fwd w (r ++ f.take n) eof
+        (Link.step l (.read n)).1) := by
+  have hinv := Link.step_inv l (.read n) h.inv
+  have hbe : l.buf.isEmpty = true := by rw [h.hbuf, hb]; rfl
+  have hq' : l.rxq = f :: rest := by rw [h.hrxq, hq]
+  constructor
+  · intro ht
+    have ht' : l.since + 1 ≥ l.th := by rw [h.hsince, h.hth]; exact ht
+    have hs : (Link.step l (.read n)).1 =
+        { l with rxq := rest, buf := f.drop n, since := 0, acks := l.acks ++ [l.since + 1], consumed := l.consumed + 1,
+                 acked := l.acked + (l.since + 1), delivered := l.delivered ++ f.take n } := by
+      simp [Link.step, Link.fill_one _ _ h.inv.hne_rxq, hbe, hq', Link.countFrame, ht']
+    rw [hs] at hinv ⊢
+    exact h.read hinv rfl rfl rfl rfl rfl rfl rfl rfl rfl rfl rfl rfl (by simp [h.hdel]) h.heof h.hrx
+  · intro ht
+    have ht' : ¬ l.since + 1 ≥ l.th := by rw [h.hsince, h.hth]; exact ht
+    have hs : (Link.step l (.read n)).1 =
+        { l with rxq := rest, buf := f.drop n, since := l.since + 1, consumed := l.consumed + 1,
+                 delivered := l.delivered ++ f.take n } := by
+      simp [Link.step, Link.fill_one _ _ h.inv.hne_rxq, hbe, hq', Link.countFrame, ht']
+    rw [hs] at hinv ⊢
+    exact h.read hinv rfl rfl rfl rfl rfl rfl rfl rfl rfl rfl rfl (by simp [h.hsince]) (by simp [h.hdel]) h.heof h.hrx
+
+theorem DirRelA.readEof {oR : Obj} {fwd : List Msg} {w r : Bytes} {eof : Bool} {l : Link.St} (n : Nat)
+    (h : DirRelA oR fwd w r eof l) (hb : oR.buf = []) (hq : oR.rxq = []) (ha : oR.senderAlive = false) :
+    DirRelA { oR with rxOpen := false } fwd w r true (Link.step l (.read n)).1 := by
+  have hinv := Link.step_inv l (.read n) h.inv
+  have hbe : l.buf.isEmpty = true := by rw [h.hbuf, hb]; rfl
+  have hq' : l.rxq = [] := by rw [h.hrxq, hq]
+  have hs : (Link.step l (.read n)).1 = { l with eofSeen := true } := by
+    simp [Link.step, Link.fill_one _ _ h.inv.hne_rxq, hbe, hq', h.halive, ha]
+  rw [hs] at hinv ⊢
+  exact h.read hinv rfl rfl rfl rfl rfl rfl rfl rfl rfl h.hrxq h.hbuf h.hsince h.hdel rfl (fun _ => ha)
+
+/-- A frame of the flow reaches a receiver whose peer has released the flow. While the receiver's side
+    is alive, a `Push` is queued (it fits), `Finish`/`Reset` end it; afterwards nothing matters. -/
+theorem DirRelA.deliverPush {oR : Obj} {fwd : List Msg} {w r : Bytes} {eof : Bool} {l : Link.St} (y : Nat) (d : Bytes)
+    (h : DirRelA oR (.frame (.push y d) :: fwd) w r eof l) (hal : oR.senderAlive = true) :
+    oR.rxq.length < oR.cap ∧ DirRelA { oR with rxq := oR.rxq ++ [d] } fwd w r eof (Link.step l .deliver).1 := by
+  have hinv := Link.step_inv l .deliver h.inv
+  have hw : l.wire = .push d :: cutEnd (fwd.filterMap toItem) := by rw [h.hwire, hal]; simp [cutEnd]
+  have hal' : l.rAlive = true := by rw [h.halive]; exact hal
+  have hroom : l.rxq.length < l.W := by
+    have := h.inv.hcredit
+    rw [hw] at this
+    simp [Link.pushes] at this
+    omega
+  have hs : (Link.step l .deliver).1 = { l with wire := cutEnd (fwd.filterMap toItem), rxq := l.rxq ++ [d] } := by
+    simp [Link.step, hw, hal', hroom]
+  rw [hs] at hinv ⊢
+  refine ⟨by rw [← h.hrxq, ← h.hW]; exact hroom, ?_⟩
+  exact ⟨hinv, h.hW, h.hWb, h.hth, h.hfin, by simp [hal], h.halive, by simp [h.hrxq], h.hbuf, h.hsince, h.hacc, h.hdel, h.heof, h.hrx⟩
+
+theorem DirRelA.deliverEnd {oR : Obj} {fwd : List Msg} {w r : Bytes} {eof : Bool} {l : Link.St} (m : Msg)
+    (hm : toItem m = some .fin ∨ toItem m = some .rst)
+    (h : DirRelA oR (m :: fwd) w r eof l) :
+    ∃ l', DirRelA { oR with senderAlive := false } fwd w r eof l' := by
+  cases hal : oR.senderAlive with
+  | false =>
+    refine ⟨l, h.inv, h.hW, h.hWb, h.hth, h.hfin, ?_, by rw [h.halive, hal], h.hrxq, h.hbuf, h.hsince, h.hacc, h.hdel, h.heof, fun _ => rfl⟩
+    have := h.hwire; rw [hal] at this; simpa using this
+  | true =>
+    have hinv := Link.step_inv l .deliver h.inv
+    have hw : l.wire = [.fin] ∨ l.wire = [.rst] := by
+      rw [h.hwire, hal]
+      rcases hm with hm | hm <;> simp [List.filterMap_cons, hm, cutEnd]
+    have hs : (Link.step l .deliver).1 = { l with wire := [], rAlive := false } := by
+      rcases hw with hw | hw <;> simp [Link.step, hw]
+    rw [hs] at hinv
+    exact ⟨_, hinv, h.hW, h.hWb, h.hth, h.hfin, by simp, rfl, h.hrxq, h.hbuf, h.hsince, h.hacc, h.hdel, h.heof, fun _ => rfl⟩
+
+/-- A message that carries no data item disappears from the path. -/
+theorem DirRelA.skip {oR : Obj} {fwd : List Msg} {w r : Bytes} {eof : Bool} {l : Link.St} (m : Msg) (hm : toItem m = none)
+    (h : DirRelA oR (m :: fwd) w r eof l) : DirRelA oR fwd w r eof l :=
+  h.congr rfl rfl rfl rfl rfl rfl (fun _ => by rw [List.filterMap_cons, hm]) rfl rfl rfl rfl
 
 end Penguin.Pair
